@@ -109,9 +109,14 @@ def scenarios(prop, tier, seed):
         raise Infra("no e2e scenarios for " + prop)
     scens = []
     for (path, mode, tls, a) in cfgs:
+        conns = conn_plans(rnd, per, ends, force=force, path=path)
+        if prop in ("C14", "C05") and path in ("poller", "transfer", "stdtransfer") and not tls:
+            # one connection that streams thousands of small messages through the connection's job queue: the hand-over between
+            # the poller (appending jobs) and the runner (finishing) happens thousands of times
+            conns.append({"nmsg": 3000 if quick else 12000, "goat": 0, "chunk": "stream", "writers": 2, "perwriter": 6, "big": False,
+                          "end": "closeframe", "slowopen": False, "slowmsg": False, "slowread": False, "earlydata": False})
         scens.append({"id": "%s-%s-%s-%s" % (path, mode, "tls" if tls else "plain", "queued" if a else "direct"),
-                      "path": path, "mode": mode, "tls": tls, "async": a, "track": track,
-                      "conns": conn_plans(rnd, per, ends, force=force, path=path)})
+                      "path": path, "mode": mode, "tls": tls, "async": a, "track": track, "conns": conns})
     return scens
 
 
@@ -204,6 +209,16 @@ def dispatch_conformance(res, scratch, tp):
     """Every callback event of the recorded end-to-end trace has to be producible by WsDispatch.tla (internal steps are
     inferred by TLC).  An unexplained event is drift of the implementation-level model: reported, never a verdict."""
     outp = scratch.fresh("dispout") + ".ndjson"
+    # (the streaming connections are left out: the trace spec bounds the number of frames parsed ahead)
+    ftp = scratch.fresh("disptrace") + ".ndjson"
+    keep = True
+    with open(tp) as f, open(ftp, "w") as g:
+        for line in f:
+            if '"ev":"reset"' in line:
+                keep = '"chunk":"stream"' not in line
+            if keep:
+                g.write(line)
+    tp = ftp
     rc, out, dt = common.tlc_raw(scratch, "WsDispatchTrace", None, cfg_text=DISPATCH_TRACE_CFG, workers=1, timeout=1800,
                                  env_extra={"VERIF_TRACE": tp, "VERIF_MONOUT": outp}, heap="8g")
     if not os.path.exists(outp):
